@@ -694,7 +694,8 @@ def rule_layout(prop, repo, cv, which):
         got = None
         # the only tolerated non-return outcome: the identity has no affine form
         for o in others:
-            ok_id = o.kind == "panic" and any(isinstance(a, T) and a[0] == "call" and a[1].endswith("::to_affine") and c == "None" for a, c in o.pc)
+            ok_id = o.kind == "panic" and any(isinstance(a, T) and a[0] == "call" and ((a[1].endswith("::to_affine") and c == "None") or
+                                                                                       (a[1].endswith("::is_zero") and c == 1 and tpath(repo, a[3][0]) == ["self"])) for a, c in o.pc)
             if not ok_id:
                 problems.append("%s at %s (%s)" % (o.kind, o.site, o.detail))
         if not rets:
